@@ -283,6 +283,8 @@ class Conv:
 
 
 def _region(ix, nrb, rfm, save):
+    while ix[0] == "tup" and len(ix) >= 3 and ix[-1] in (("slice", NONE, NONE, NONE), ("c", Ellipsis)):
+        ix = ix[1] if len(ix) == 3 else ix[:-1]         # X[rows, :] / X[rows, ...] address the rows
     if ix == ("slice", NONE, ("s", nrb), NONE) or ix == ("slice", ("c", 0), ("s", nrb), NONE):
         return ":nrb"
     if ix == ("slice", ("s", nrb), NONE, NONE):
